@@ -11,8 +11,8 @@ from ..rules.common import attr_chain, run_flags
 
 LEVEL = 'other'
 TECHNIQUE = ('static: must-pass-through placement table for whitespace skipping, finite-model interpretation of the '
-             'next_token loops over the abstract alphabet {whitespace, eol comment, comment}, sibling-summary agreement '
-             'of the token matchers, order-of-application dataflow for configuration layers')
+             'next_token loops over the abstract alphabet {whitespace, eol comment, comment}, finite-domain interpretation '
+             'of the three token matchers against an oracle, order-of-application dataflow for configuration layers')
 LEVEL_TEXT = ('Decides, for all paths / all cursor implementations: each primitive of the parse context skips whitespace '
               'first or never, as the documented table says (tokens, constants, void, eof, fail, alerts, meta tokens and '
               'lower-case rule entry: yes; patterns, any-char, eol, cut, empty, upper-case rules: no); every next_token '
